@@ -280,12 +280,17 @@ Step(s, r, k) ==
 (*   taint[h]: the approval was registered while the hash was already out   *)
 (*   of balance as an uninvoiced payment (TODO(331) tolerance, which the    *)
 (*   property excludes): clause (a) is not evaluated for it.                *)
+(*   carry[h]: outgoing value that was in flight under an approval when the *)
+(*   signer pruned that approval (possible once the payment is fulfilled    *)
+(*   and expired, while its HTLC still sits in the commitments).  It was    *)
+(*   covered by the pruned approval and is not charged to a later approval  *)
+(*   of the same hash; it only shrinks (with the value in flight).          *)
 (* mon = "a" | "b" | "ab" selects the history that is kept.                 *)
 (***************************************************************************)
 InitGhost(ChanSet, HashSet) ==
   [ H |-> [c \in ChanSet |-> <<>>], X |-> [c \in ChanSet |-> NoneC], C |-> [c \in ChanSet |-> <<>>],
     appr |-> [h \in HashSet |-> -1], taint |-> [h \in HashSet |-> FALSE],
-    seen |-> [h \in HashSet |-> FALSE], bad |-> FALSE ]
+    carry |-> [h \in HashSet |-> 0], seen |-> [h \in HashSet |-> FALSE], bad |-> FALSE ]
 
 \* value in flight from the node / to the node for hash h, all channels, current commitments
 GOut(g, h) == SumOver([c \in DOMAIN g.H |-> Max(Amt(g.H[c], "o", h), Amt(g.C[c], "o", h))], DOMAIN g.H)
@@ -309,18 +314,22 @@ Ghost(g, r, resp, pre, post, mon) ==
                         /\ g.appr[h] <= 0 /\ ~g.seen[h]      \* no approval, or an approval of amount 0
                         /\ Amt(x, "o", h) > Amt(x, "r", h)
       sees(x) == [h \in DOMAIN g.seen |-> g.seen[h] \/ (b /\ h \in HashesOf(x))]
+      g2 == IF ~resp.ok THEN g1
+            ELSE CASE r.op = "SignCp" ->
+                        [g1 EXCEPT !.C[r.ch] = IF a THEN r.c ELSE @, !.seen = sees(r.c),
+                                   !.bad = @ \/ (b /\ unbacked(r.c))]
+                   [] r.op = "ValidateHolder" ->
+                        [g1 EXCEPT !.X[r.ch] = IF a THEN Cont(r.c) ELSE @, !.seen = sees(r.c),
+                                   !.bad = @ \/ (b /\ unbacked(r.c))]
+                   [] r.op = "Revoke" ->
+                        IF a /\ g.X[r.ch].some
+                        THEN [g1 EXCEPT !.H[r.ch] = g.X[r.ch].htlcs, !.X[r.ch] = NoneC] ELSE g1
+                   [] OTHER -> g1
   IN
-  IF ~resp.ok THEN g1
-  ELSE CASE r.op = "SignCp" ->
-              [g1 EXCEPT !.C[r.ch] = IF a THEN r.c ELSE @, !.seen = sees(r.c),
-                         !.bad = @ \/ (b /\ unbacked(r.c))]
-         [] r.op = "ValidateHolder" ->
-              [g1 EXCEPT !.X[r.ch] = IF a THEN Cont(r.c) ELSE @, !.seen = sees(r.c),
-                         !.bad = @ \/ (b /\ unbacked(r.c))]
-         [] r.op = "Revoke" ->
-              IF a /\ g.X[r.ch].some
-              THEN [g1 EXCEPT !.H[r.ch] = g.X[r.ch].htlcs, !.X[r.ch] = NoneC] ELSE g1
-         [] OTHER -> g1
+  [g2 EXCEPT !.carry = [h \in DOMAIN g.carry |->
+                          IF ~a THEN 0
+                          ELSE IF g.appr[h] >= 0 /\ newAppr[h] < 0 THEN GOut(g, h)
+                          ELSE Min(g.carry[h], GOut(g2, h))]]
 
 (***************************************************************************)
 (* C06                                                                     *)
@@ -332,10 +341,10 @@ Ghost(g, r, resp, pre, post, mon) ==
 (*     same update carries for that hash                                    *)
 (***************************************************************************)
 Inv_C06a(g, k) == \A h \in DOMAIN g.appr :
-                    (g.appr[h] >= 0 /\ ~g.taint[h]) => GOut(g, h) <= GIn(g, h) + g.appr[h] + k.fee
+                    (g.appr[h] >= 0 /\ ~g.taint[h]) => GOut(g, h) <= GIn(g, h) + g.appr[h] + k.fee + g.carry[h]
 Inv_C06b(g)    == ~g.bad
 Overpaid(g, k) == {h \in DOMAIN g.appr : g.appr[h] >= 0 /\ ~g.taint[h]
-                                           /\ GOut(g, h) > GIn(g, h) + g.appr[h] + k.fee}
+                                           /\ GOut(g, h) > GIn(g, h) + g.appr[h] + k.fee + g.carry[h]}
 
 (***************************************************************************)
 (* Request alphabets / case matrices (the single source of what the        *)
